@@ -13229,11 +13229,20 @@ class TensorDictBase(MutableMapping):
         if first_attempt:
             del obj
             return self._check_unlock(False)
+
+        def _safe_repr(td):
+            # the repr of a tensordict can raise (e.g. a lazy stack of heterogeneous members);
+            # the lock error must be raised regardless, or unlock_() would not restore the lock
+            try:
+                return repr(td)
+            except Exception:
+                return f"<{type(td).__name__} at {hex(id(td))}>"
+
         raise RuntimeError(
             "Cannot unlock a tensordict that is part of a locked graph. "
             "Unlock the root tensordict first. If the tensordict is part of multiple graphs, "
             "group the graphs under a common tensordict an unlock this root. "
-            f"self: {self}, obj: {obj}"
+            f"self: {_safe_repr(self)}, obj: {_safe_repr(obj)}"
         )
 
     @_as_context_manager("is_locked")
